@@ -296,6 +296,37 @@ func c08Extend(c *fw.Ctx, idx int) {
 			return
 		}
 	}
+	// the same, starting from the box a geometry returned for itself instead of
+	// from NewBounds: that box is an ordinary Bounds value and may be extended
+	want2 := geom.NoLayout
+	for _, g := range gs {
+		want2 = joinLayout(want2, g.Layout)
+	}
+	for k, ord := range orders {
+		if k >= 24 {
+			break
+		}
+		c.SetInput(map[string]any{"start": "the Bounds() of the first geometry in the order", "geometries": strings.Join(desc, " | "), "order": fmt.Sprint(ord)})
+		var b *geom.Bounds
+		if c.Guard("panic", func() {
+			b = ts[ord[0]].Bounds()
+			for _, i := range ord[1:] {
+				b = b.Extend(ts[i])
+			}
+		}) {
+			return
+		}
+		c.Count("extend_from_a_geometry's_own_bounds")
+		if !c08Compare(c, fmt.Sprintf("Bounds() of geometry %d extended in order %v", ord[0], ord[1:]), b, want2, sb, anyc) {
+			return
+		}
+	}
+	// none of this may have touched the geometries themselves
+	for i, g := range gs {
+		if !expectGeom(c, fmt.Sprintf("geometry %d after its bounds were taken and extended", i), ts[i], g, model.Opts{}) {
+			return
+		}
+	}
 	c.CountN("extend_orders", int64(len(orders)))
 	if c.WantSample() && n <= 3 {
 		c.Sample(c.Input())
